@@ -235,7 +235,7 @@ func (s *Script) renderInstance(sb *strings.Builder, instIdx int, inst []int, on
 					continue
 				}
 			}
-			if !batch {
+			if !batch || it.Cut {
 				flush()
 			}
 			sb.WriteString(text)
